@@ -87,28 +87,39 @@ def hdi_rejects(vc):
 from pyvc.vc import bounded
 
 
-@bounded("C13", "hdi_exact_native", native_runs=40)
+@bounded("C13", "hdi_exact_native", native_runs=60)
 def hdi_exact_native(vc):
     """the end points are ELEMENTS of the sample (bit for bit: they are gathered, not recomputed), L = floor(f n) places apart
     in sorted order, and no window of L+1 sorted points is shorter -- also when the sample holds outliers of magnitude 1e16
-    next to values of order one, or is given with an integer dtype"""
+    next to values of order one, or is given with an integer or a low-precision float dtype (every value used here is exactly
+    representable in float64, and so are the differences: the reference below is exact)"""
     import numpy as np
     from inference.pdf.hdi import sample_hdi
     seed = vc.int("seed", lo=0, hi=10 ** 6)
     rng = np.random.default_rng(seed)
     n = int(rng.integers(3, 40))
-    kind = vc.choice("sample", ["normal", "outliers", "integers", "small_integers_int8"])
+    kind = vc.choice("sample", ["normal", "outliers", "integers", "small_integers_int8", "float16", "float32_two_clusters"])
     if kind == "normal":
         x = rng.normal(size=n)
     elif kind == "outliers":
         x = rng.normal(size=n)
         x[rng.integers(0, n)] = -10.0 ** rng.uniform(12, 16)
         x[rng.integers(0, n)] = 10.0 ** rng.uniform(12, 16)
+    elif kind in ("float16", "float32_two_clusters"):
+        # low-precision floats in two clusters far apart: every candidate window spans both, and window lengths that differ by a
+        # few units are equal once rounded to the sample's own precision (all values and differences are exact in float64)
+        n = int(rng.integers(16, 40))
+        h = n // 2
+        if kind == "float16":
+            x = np.concatenate([rng.integers(-6, 7, size=h), 16384 + 16 * rng.integers(-3, 4, size=n - h)])
+        else:
+            x = np.concatenate([rng.integers(-40, 41, size=h), 2 ** 30 + 128 * rng.integers(-3, 4, size=n - h)])
+        x = rng.permutation(x).astype(np.float16 if kind == "float16" else np.float32)
     elif kind == "integers":
         x = rng.integers(-50, 50, size=n)
     else:
         x = rng.integers(-120, 127, size=n).astype(np.int8)
-    f = float(rng.choice([0.3, 0.5, 0.68, 0.7, 0.9]))
+    f = float(rng.choice([0.3, 0.5, 0.68, 0.7, 0.9])) if not kind.startswith("float") else float(rng.choice([0.55, 0.6, 0.68]))
     L = int(f * n)
     if L < 1 or L >= n:
         from pyvc.vc import SkipCase
